@@ -20,7 +20,9 @@ clone(); CLI --proxy / --debug).
 Part E (scripted backend, scripted ``requests``): the isolation clause for every constructor option of
 ``IsolatedGPGEnvironment`` x every operation that starts a backend process (all operation sequences up to a
 bound, ended by close()) x what the process environment exports; EV: the acceptance rule of Part A through an
-isolated environment under every option; EC: the ``-K`` command lines with their environment flags.  On EVERY
+isolated environment under every option; EC: the ``-K`` command lines with their environment flags; EK (and B2K with real gpg and a populated user home):
+the ``-K`` command lines x every spelling of the option (``-K V``, ``-K=V``, ``--openpgp-key V``, ``--openpgp-key=V``)
+x what V names (key file, empty string, missing file, directory, empty file).  On EVERY
 backend process the GnuPG home it works on must be the environment's own.
 """
 
@@ -112,7 +114,19 @@ RULE = ('Part A: plain product enumeration of ALL sequences of length <= L (L=4 
         'openpgp-verify} -K keyfile` x --proxy {absent, URL1, URL2} x {--debug} x refresh flags {none, -R, -W, '
         '--keyserver U, -W --keyserver U} x {-s} (verify) x the 4 process environments x 3 scripted verdicts; all '
         'backend processes of one command line must use one home below the temporary directory, not the exported '
-        'one; verify exit status / report judged as in Part A; '
+        'one; verify exit status / report judged as in Part A. '
+        'Part EK (scripted backend; how the key file of -K is given): full product `gemato {verify, openpgp-verify}` x '
+        'the 4 spellings {-K VALUE, -K=VALUE, --openpgp-key VALUE, --openpgp-key=VALUE} x 5 kinds of VALUE {key file, '
+        'empty string, missing file, directory, empty file} x refresh flags {none, -R} x {-s} (verify) x GNUPGHOME '
+        '{exported, not exported} x 3 scripted verdicts (both tiers: the space is small and closed); on every command '
+        'line ALL backend processes must work on one home below the temporary directory, never the exported / '
+        'inherited one; with a VALUE that names no readable file (empty string, missing, directory) no key counts, so '
+        'no valid-signature report and no exit 0 of `verify` (a non-zero exit or an OSError ending the program is '
+        'fine); key file: judged as Part EC; empty file: acceptance only as the scripted verdict allows. '
+        'Part B2K (real gpg): user GNUPGHOME {signer key at ultimate trust, unrelated keys} exported x the 4 spellings '
+        'x VALUE {empty string, missing file, directory, empty file} x `verify … -R` {-s} on a genuinely signed tree: '
+        'no gpg process on the user home, user home byte-identical afterwards, never exit 0 / a valid-signature '
+        'report (no key comes from such a file); '
         'a transition is one backend (gpg/gpgconf or scripted) process started by gemato')
 ASSUMPTIONS = [
     'reference predicate (seq_facts/expect in this file) restates the statement: accept iff exit 0 and GOODSIG and '
@@ -148,7 +162,11 @@ ASSUMPTIONS = [
     'where their processes work is judged; an internal error is still reported), exit status of openpgp-verify, '
     'whether the isolated home is removed by close() of a library environment (debug=True keeps it by design; the '
     'CLI without --debug must not leave it behind, as in B1cli)',
-    'Part E/EV/EC replace the names `subprocess` and `requests` inside gemato.openpgp (scripted Popen answering '
+    'Parts EK/B2K: "when a key file is given (-K)" is read as: the option is on the command line, whatever its value '
+    '(also an empty one); argparse (trusted, stdlib) decides what VALUE each spelling yields; which error the CLI '
+    'raises for an unusable VALUE is DONT_CARE (non-zero exit, argparse error, OSError traceback are all fine), an '
+    'exception that is neither a gemato exception, SystemExit nor OSError is reported as internal error',
+    'Part E/EV/EC/EK replace the names `subprocess` and `requests` inside gemato.openpgp (scripted Popen answering '
     'gpg\'s commands --import, --import-ownertrust, --list-keys, --verify, --clearsign, --refresh-keys, '
     '--delete-keys and gpgconf --kill with success; scripted requests.get answering every WKD URL), so '
     'refresh_keys* run without network; the real refresh against a keyserver is out of scope',
@@ -2201,6 +2219,243 @@ def ec_run(spec, tier, seed, scratch, stats):
                     stats.case(('EC', cmd, pi, debug, refresh, sflag, amb, verdict), nontrivial=True)
 
 
+# ---------------------------------------------------------------- EK / B2K: how the key file of -K is spelled
+#
+# "when a key file is given (-K) only the keys from that file count, whatever the user's own keyring contains":
+# the option is GIVEN as soon as it is on the command line, whatever its value is.  Alphabet: the four ways argparse
+# lets the user attach the value x what the value names.
+
+K_SPELLINGS = ('-K VALUE', '-K=VALUE', '--openpgp-key VALUE', '--openpgp-key=VALUE')
+# what the value names -> does it name a readable file (keys can come from it at all)
+K_VALUES = collections.OrderedDict([
+    ('key file', True),             # a readable file with key material (scripted gpg: imports; real gpg: B2 proper)
+    ('empty string', False),        # what a wrapper script passes when its key-file variable is unset
+    ('missing file', False),
+    ('directory', False),
+    ('empty file', True),           # readable, holds no key
+])
+EK_REFRESH = ((), ('-R',))
+EK_AMBIENT = ((False, False), (True, False))        # GNUPGHOME exported in the process environment or not
+B2K_VALUES = tuple(v for v in K_VALUES if v != 'key file')
+B2K_HOMES = ('signer_ultimate', 'unrelated_keys')
+DC_KEY_VALUE = '-K value names no usable key file: non-zero exit / error of any kind is fine'
+
+
+def k_args(spelling, value):
+    opt, sep = ('-K' if spelling.startswith('-K') else '--openpgp-key'), ('=' in spelling)
+    return (opt + '=' + value,) if sep else (opt, value)
+
+
+def k_value(vkind, scratch, blob):
+    """The concrete option value for one value kind (files below scratch/k-values, recreated)."""
+    d = fresh_root(scratch, 'k-values')
+    if vkind == 'empty string':
+        return ''
+    if vkind == 'missing file':
+        return os.path.join(d, 'no-such-key.bin')
+    if vkind == 'directory':
+        p = os.path.join(d, 'keys.d')
+        os.mkdir(p)
+        return p
+    p = os.path.join(d, 'key.bin')
+    with open(p, 'wb') as fh:
+        fh.write(blob if vkind == 'key file' else b'')
+    return p
+
+
+def k_obs(argv):
+    """Run one gemato command line.  An OSError leaving main() ends the real program with a traceback and a
+    non-zero exit status: recorded as an error exit, not as an internal error."""
+    o = Obs('cli')
+    r = gem.cli(argv)
+    o.exit = r['exit']
+    o.reported = any(VALID_LOG in msg for _lv, msg in r['log'])
+    if r['kind'] == 'exc' and r.get('class') != 'exit':
+        o.exc = r['exc']
+        if r.get('class') == 'internal':
+            o.where = r.get('where')
+            o.detail = r.get('msg', '')
+        elif r.get('class') == 'oserror':
+            o.exit = 'error:' + r['exc']
+    o.accepted = (o.exit == 0)
+    return o
+
+
+def k_judge(cmd, vkind, kind, o, sflag):
+    """Verdict part of the oracle (the home of every backend process is judged by the caller).
+    -> ([(sig, text)], dontcare reason|None)"""
+    if o.where is not None or o.exit is None:
+        return [({'check': 'internal_error', 'exc': o.exc, 'where': o.where},
+                 f'internal error {o.exc} at {o.where}: {o.detail}')], None
+    if vkind == 'key file':
+        return (judge_cli(kind, o, True, sflag) if cmd == 'verify' else []), None
+    out = []
+    if not K_VALUES[vkind]:
+        # no file, so no key that counts: nothing can be accepted
+        if o.reported or (cmd == 'verify' and o.exit == 0):
+            out.append(({'check': 'accepted_without_key_file', 'value': vkind},
+                        f'-K names no readable file ({vkind}) but the signature was accepted'
+                        + (' (valid signature reported)' if o.reported else '') + f', exit {o.exit}'))
+        return out, (None if out else DC_KEY_VALUE)
+    # empty file: whatever the backend makes of it; acceptance only as in Part A
+    if cmd == 'verify' and kind == 'reject':
+        out = judge_cli(kind, o, True, sflag)
+    return out, (None if out or o.exit == 0 else DC_KEY_VALUE)
+
+
+def ek_case(cmd, spelling, vkind, refresh, sflag, amb, verdict, seed, scratch, stats=None):
+    """`gemato <cmd> <-K in one spelling, one kind of value> <refresh flags> [-s] target` on the scripted backend."""
+    P = present(seed)
+    tmp, user = _e_dirs(scratch)
+    root = a_tree(scratch, P)
+    value = k_value(vkind, scratch, b'scripted key file')
+    sg = ScriptGpg(P)
+    seq_names, ex = E_VERDICTS[verdict]
+    sg.verify = (P.stdout(tuple(IDX[k] for k in seq_names)), ex)
+    kind, _info = expect(seq_facts(tuple(IDX[k] for k in seq_names)), ex)
+    pre = k_args(spelling, value) + tuple(refresh) + (('-s',) if sflag else ())
+    target = root if cmd == 'verify' else os.path.join(root, 'Manifest')
+    case = {'part': 'EK', 'cmd': cmd, 'spelling': spelling, 'value': vkind, 'refresh': list(refresh), 's': bool(sflag),
+            'ambient': list(amb), 'verdict': verdict, 'seed': seed}
+    shown = ' '.join((cmd,) + k_args(spelling, f'<{vkind}>') + pre[len(k_args(spelling, value)):])
+    desc = f'`gemato {shown} …` with GNUPGHOME {"exported" if amb[0] else "not exported"}'
+    with _ambient(user if amb[0] else None, None), _scripted(sg, _Requests()), _tmp_under(tmp):
+        o = k_obs([cmd] + list(pre) + [target])
+    vs = cli_homes_check(sg.log, tmp, user if amb[0] else None)
+    dc = None
+    if o.exc != '_ShimGap':
+        jv, dc = k_judge(cmd, vkind, kind, o, sflag)
+        vs += jv
+    seen = set()
+    viols = []
+    for sig, t in vs:
+        k = repr(sorted(sig.items()))
+        if k not in seen:
+            seen.add(k)
+            viols.append((sig, case, f'{sig["check"]}: {desc}; scripted gpg would say {" ".join(seq_names)} exit {ex}; '
+                                     f'CLI {o.label()}: {t}'))
+    if stats is not None:
+        stats.evaluations += 1
+        stats.compared += 1             # where its backend processes work is judged on every case
+        stats.transitions += len(sg.log)
+        stats.counters['EK_backend_processes_checked_for_GNUPGHOME'] += len(sg.log)
+        stats.counters['E_backend_argv_unscripted'] += sg.unscripted
+        stats.counters['EK_value:' + vkind] += 1
+        stats.counters['EK_spelling:' + spelling] += 1
+        ran = 'verified' if any('--verify' in r['argv'] for r in sg.log) else 'no verification'
+        stats.outcomes[f'EK:{kind if K_VALUES[vkind] else "nokey"}/{vkind}/{ran}/'
+                       + ('exit=0' if o.exit == 0 else 'nonzero-or-error')] += 1
+        if dc:
+            stats.dontcare[dc] += 1
+    return viols
+
+
+def ek_run(spec, tier, seed, scratch, stats):
+    _e, cmd, spelling, vkind = spec
+    for refresh in EK_REFRESH:
+        for sflag in ((False, True) if cmd == 'verify' else (False,)):
+            for amb in EK_AMBIENT:
+                for verdict in EC_VERDICTS:
+                    for sig, case, msg in ek_case(cmd, spelling, vkind, refresh, sflag, amb, verdict, seed, scratch,
+                                                  stats):
+                        _emit(stats, sig, case, msg)
+                    stats.counters['EK_cases'] += 1
+                    stats.case(('EK', cmd, spelling, vkind, refresh, sflag, amb, verdict), nontrivial=True)
+
+
+def ek_space():
+    return (len(K_SPELLINGS) * len(K_VALUES) * len(EK_REFRESH) * len(EK_AMBIENT) * len(EC_VERDICTS)
+            * sum(2 if c == 'verify' else 1 for c in EC_CMDS))
+
+
+def b2k_config(content, spelling, vkind, sflag, scratch, stats=None, home=None):
+    """Real gpg: `gemato verify <-K spelled, value kind> -R [-s] tree` on a tree whose Manifest is genuinely signed,
+    with the user's own GNUPGHOME (content) exported.  -> violations"""
+    M = material()
+    text = M['texts']['SIGNED_MANIFEST']
+    case = {'part': 'B2K', 'home': content, 'spelling': spelling, 'value': vkind, 's': bool(sflag)}
+    own = home is None
+    old = os.environ.get('GNUPGHOME')
+    viols = []
+    try:
+        if own:
+            home = make_user_home(scratch, content)
+        os.environ['GNUPGHOME'] = home
+        before = snapshot_home(home)
+        root = fresh_root(scratch, 'b')
+        write_fixture_tree(root, text)
+        value = k_value(vkind, scratch, b'')
+        tmp = fresh_root(scratch, 'tmp')
+        rec = Recorder()
+        try:
+            with _patched(rec.popen), _tmp_under(tmp):
+                o = k_obs(['verify'] + list(k_args(spelling, value)) + ['-R'] + (['-s'] if sflag else []) + [root])
+        finally:
+            logging.getLogger().setLevel(logging.INFO)
+        for d in sorted(d for d in os.listdir(tmp) if d.startswith('gemato.')):
+            _kill_agents(os.path.join(tmp, d))
+            shutil.rmtree(os.path.join(tmp, d), ignore_errors=True)
+        calls = rec.log
+        seq, ex, _u, _r = real_facts(calls)
+        what = (f'[verify {" ".join(k_args(spelling, "<" + vkind + ">"))} -R{" -s" if sflag else ""}] '
+                f'user home {content}')
+        vs = list(cli_homes_check(calls, tmp, home))
+        if o.where is not None or o.exit is None:
+            vs.append(({'check': 'internal_error', 'exc': o.exc, 'where': o.where},
+                       f'internal error {o.exc} at {o.where}: {o.detail}'))
+        elif o.reported or o.exit == 0:
+            # neither an unreadable nor an empty file provides a key: no signature can be accepted
+            vs.append(({'check': 'accepted_without_key_file', 'value': vkind},
+                       f'the key file ({vkind}) provides no key but the signed Manifest was accepted'
+                       + (' (valid signature reported)' if o.reported else '') + f', exit {o.exit}'))
+        for sig, t in vs:
+            viols.append((sig, case, f'{sig["check"]}: {what}, gpg said {" ".join(names(seq or ())) or "nothing"} '
+                                     f'exit {ex}; CLI {o.label()}: {t}'))
+        after = snapshot_home(home)
+        if after != before:
+            changed = sorted(k for k in set(before) | set(after) if before.get(k) != after.get(k))
+            viols.append(({'check': 'user_home_modified'}, case,
+                          f'user_home_modified: {what}: the user\'s GNUPGHOME changed: {changed}'))
+            if not own:
+                _kill_agents(home)
+                make_user_home(scratch, content)
+        if stats is not None:
+            stats.evaluations += 1
+            stats.compared += 1
+            note_calls(stats, calls)
+            stats.counters['B2_home_snapshots_compared'] += 1
+            stats.counters['B2K_cases'] += 1
+            stats.counters['B2K_backend_processes_checked_for_GNUPGHOME'] += len(calls)
+            stats.outcomes[f'B2K:nokey/{vkind}/' + ('exit=0' if o.exit == 0 else
+                                                   ('error' if isinstance(o.exit, str) else 'nonzero'))] += 1
+            stats.case(('B2K', content, spelling, vkind, bool(sflag)), nontrivial=True)
+    finally:
+        if old is None:
+            os.environ.pop('GNUPGHOME', None)
+        else:
+            os.environ['GNUPGHOME'] = old
+        if own and home:
+            _kill_agents(home)
+    return viols
+
+
+def b2k_run(spec, tier, seed, scratch, stats):
+    content = spec[1]
+    home = make_user_home(scratch, content)
+    try:
+        for spelling in K_SPELLINGS:
+            for vkind in B2K_VALUES:
+                for sflag in (False, True):
+                    for sig, case, msg in b2k_config(content, spelling, vkind, sflag, scratch, stats, home=home):
+                        _emit(stats, sig, case, msg)
+    finally:
+        _kill_agents(home)
+
+
+def b2k_space():
+    return len(B2K_HOMES) * len(K_SPELLINGS) * len(B2K_VALUES) * 2
+
+
 def e_space(tier):
     per = sum(len(E_OPS) ** k for k in range(e_len(tier) + 1))
     return per * len(E_PROXY) * len(E_DEBUG) * len(E_VIA) * len(E_AMBIENT)
@@ -2223,6 +2478,9 @@ def e_replay(case, scratch):
     elif part == 'EV':
         got = ev_slow(case['proxy_i'], case['debug'], tuple(IDX[k] for k in case['seq']), case['exit'], case['seed'],
                       scratch)
+    elif part == 'EK':
+        got = ek_case(case['cmd'], case['spelling'], case['value'], tuple(case['refresh']), case['s'],
+                      tuple(case['ambient']), case['verdict'], case['seed'], scratch)
     else:
         got = ec_case(case['cmd'], case['proxy_i'], case['debug'], tuple(case['refresh']), case['s'],
                       tuple(case['ambient']), case['verdict'], case['seed'], scratch)
@@ -2248,6 +2506,8 @@ def shards(tier, seed):
         for pi in B2_PROXY:
             for debug in B2_DEBUG:
                 out.append(('B2', content, pi, debug))
+    for content in B2K_HOMES:
+        out.append(('B2K', content))
     for st in M['states']:
         out.append(('B1', st))
         out.append(('B1cli', st))
@@ -2268,6 +2528,10 @@ def shards(tier, seed):
         for debug in E_DEBUG:
             for cmd in EC_CMDS:
                 out.append(('EC', cmd, pi, debug))
+    for cmd in EC_CMDS:
+        for spelling in K_SPELLINGS:
+            for vkind in K_VALUES:
+                out.append(('EK', cmd, spelling, vkind))
     return out
 
 
@@ -2290,6 +2554,10 @@ def run_shard(spec, tier, seed, scratch):
         ev_run(spec, tier, seed, scratch, stats)
     elif kind == 'EC':
         ec_run(spec, tier, seed, scratch, stats)
+    elif kind == 'EK':
+        ek_run(spec, tier, seed, scratch, stats)
+    elif kind == 'B2K':
+        b2k_run(spec, tier, seed, scratch, stats)
     else:
         b3_run(spec, tier, seed, scratch, stats)
     return stats
@@ -2309,8 +2577,11 @@ def replay(case, scratch):
                 for s, c, m in b1cli_config(case['state'], tuple(case['flags']), scratch)]
     if part in ('B2', 'B2control'):
         return b2_replay(case, scratch)
-    if part in ('E', 'EV', 'EC'):
+    if part in ('E', 'EV', 'EC', 'EK'):
         return e_replay(case, scratch)
+    if part == 'B2K':
+        return [{'sig': s, 'case': c, 'message': m}
+                for s, c, m in b2k_config(case['home'], case['spelling'], case['value'], case['s'], scratch)]
     return b3_replay(case, scratch)
 
 
@@ -2413,6 +2684,26 @@ def finish(total, tier):
     for k in ('--import', '--import-ownertrust', '--list-keys', '--refresh-keys', '--verify', '--kill'):
         if not c.get('EC_spawns:' + k):
             errs.append(f'vacuity: Part EC command lines never started a backend process {k}')
+    # Parts EK / B2K: the spellings of the -K value
+    if c['EK_cases'] != ek_space():
+        errs.append(f'Part EK enumerated {c["EK_cases"]} command lines, the stated space has {ek_space()}')
+    if c['B2K_cases'] != b2k_space():
+        errs.append(f'Part B2K enumerated {c["B2K_cases"]} command lines, the stated space has {b2k_space()}')
+    for v in K_VALUES:
+        if not c.get('EK_value:' + v):
+            errs.append(f'vacuity: Part EK never ran with a -K value of kind {v}')
+    for sp in K_SPELLINGS:
+        if not c.get('EK_spelling:' + sp):
+            errs.append(f'vacuity: Part EK never ran with the spelling {sp}')
+    if not (have('EK:accept/key file/verified/exit=0') and have('EK:reject/key file/verified/nonzero-or-error')):
+        errs.append('vacuity: Part EK with a real key file lacks accepted or rejected verdicts')
+    if not have('EK:nokey/') or len([k for k, v in oc.items() if k.startswith('EK:') and v]) < 2:
+        errs.append('vacuity: Part EK has no case without a usable key file / a single outcome class')
+    for fam in ('EK', 'B2K'):
+        if not c.get(fam + '_backend_processes_checked_for_GNUPGHOME'):
+            errs.append(f'vacuity: Part {fam} checked no backend process for its GNUPGHOME')
+    if len([k for k, v in oc.items() if k.startswith('B2K:') and v]) < 2:
+        errs.append('vacuity: Part B2K produced a single outcome class (expected: error exits and a refused import)')
     errs = e_errs + ([] if total.capped else errs)
     if c.get('B3_identity_accepted', 0) < 1:
         errs.append('vacuity: the unmutated signed Manifest of the mutation family was not accepted')
@@ -2427,7 +2718,8 @@ def finish(total, tier):
 def extra_evidence(total, tier):
     c = total.counters
     nb = len(total.states)
-    n_e = c['E_cases'] + c['EC_cases'] + len(E_PROXY) * len(E_DEBUG)    # stats.case() calls of Parts E, EC, EV
+    # stats.case() calls of Parts E, EC, EK, EV
+    n_e = c['E_cases'] + c['EC_cases'] + c['EK_cases'] + len(E_PROXY) * len(E_DEBUG)
     seen = sorted(k[5:] for k in c if k.startswith('B_kw:'))
     return {
         'states': c['A_cases'] + c['EV_cases'] + nb,
@@ -2451,7 +2743,11 @@ def extra_evidence(total, tier):
         'part_ev_cases': c['EV_cases'],
         'part_ev_max_length': ev_len(tier),
         'part_ec_command_lines': c['EC_cases'],
+        'part_ek_command_lines': c['EK_cases'],
+        'part_b2k_command_lines': c['B2K_cases'],
+        'k_option_spellings': list(K_SPELLINGS),
+        'k_option_value_kinds': list(K_VALUES),
         'backend_processes_checked_for_GNUPGHOME': {
-            fam: c.get(fam + '_backend_processes_checked_for_GNUPGHOME', 0) for fam in ('E', 'EV', 'EC', 'B2')},
+            fam: c.get(fam + '_backend_processes_checked_for_GNUPGHOME', 0) for fam in ('E', 'EV', 'EC', 'EK', 'B2', 'B2K')},
         'part_e_backend_argv_not_scripted': c.get('E_backend_argv_unscripted', 0),
     }
